@@ -100,12 +100,19 @@ def handle (args : List String) : String :=
   | ["checks", name] => Id.run do
       let some c := findCode name | return "bad-op"
       let b2s := fun (b : Bool) => if b then "1" else "0"
-      return b2s (klCheck c) ++ b2s (listedCheck c) ++ b2s (stabCircImplCheck c)
+      return b2s (klCheck c) ++ b2s (listedCheck c) ++ b2s (stabCircImplCheck c) ++ b2s (listedIndepCheck c)
   | ["scirc", name] => Id.run do
       let some c := findCode name | return "bad-op"
       return " ".intercalate (c.stabCircs.map fun gl => match circPauli c.n gl with
         | some p => mpStr c.n p
         | none => "none")
+  | ["gates", name] => Id.run do
+      -- the compiled data of this code: encoder gate list | listed strings | stabilizer circuits
+      let some c := findCode name | return "bad-op"
+      let gl := fun (gs : List Gate) => if gs.isEmpty then "-" else ";".intercalate (gs.map tok')
+      let ls := if c.listed.isEmpty then "-" else " ".intercalate (c.listed.map symsStr)
+      let sc := if c.stabCircs.isEmpty then "-" else " ".intercalate (c.stabCircs.map gl)
+      return gl c.encode ++ " | " ++ ls ++ " | " ++ sc
   | ["listed", name] => Id.run do
       let some c := findCode name | return "bad-op"
       return " ".intercalate (c.listed.map symsStr)
@@ -200,7 +207,9 @@ def handle (args : List String) : String :=
       -- VarQEC(encode, K', …).get_code(): the shifted encoder on the (logical ⊗ physical) register, rows a < K'
       let some c := findCode name | return "bad-op"
       let some K' := kk.toNat? | return "bad-op"
-      if !allOk c.n c.encode || K' = 0 || K' > 2 ^ c.n then return "bad-op"
+      if !allOk c.n c.encode || K' = 0 then return "bad-op"
+      -- the real object writes `q0[a, a] = 1` for a < K' into a (2^kl, 2^n) array: IndexError for K' > 2^n
+      if K' > 2 ^ c.n then return "error:IndexError"
       let kl := ceilLog2 K'
       let m := c.n + kl
       if m > 16 then return "bad-op"
